@@ -53,6 +53,7 @@ def snake_typed(d, cap, cup):
 
 
 def check(rep, d, F):
+    from rtc.drivers.C06 import connected
     r = repr(d)
     rep.case(r, nontrivial=any(isinstance(b, (Cup, Cap)) for b in d.boxes))
     want = None
@@ -61,37 +62,50 @@ def check(rep, d, F):
     except Exception as e:
         rep.fail('C07:functor.input', 'cannot evaluate the input: %r' % (e,), r)
         return
-    steps = []
-    try:
-        for k, s in enumerate(d.normalize()):
-            steps.append(s)
-            if k > 80:
-                break
-        nf = ('ok', d.normal_form())
-    except NotImplementedError:
-        nf = ('notimpl', None)
-        rep.count('notimplemented')
-    except Exception as e:
-        rep.fail('C07:only_NotImplementedError', 'normalisation raised %s: %s' % (type(e).__name__, e), r)
-        return
-    for k, s in enumerate(steps + ([nf[1]] if nf[0] == 'ok' else [])):
-        why = common.wf_reason(s)
-        if why:
-            rep.fail('C01:snake.step.wf', 'step %d: %s' % (k, why), r)
+    for left in (False, True):
+        tag = ' (left=%r)' % left
+        steps = []
+        try:
+            with common.time_limit(30):
+                for k, s in enumerate(d.normalize(left=left)):
+                    steps.append(s)
+                    if k > 80:
+                        break
+                nf = ('ok', d.normal_form(left=left)) if len(steps) <= 80 else ('long', None)
+        except NotImplementedError:
+            nf = ('notimpl', None)
+            rep.count('notimplemented')
+            if connected(d):
+                rep.fail('C07:NotImplementedError.connected', 'NotImplementedError on a diagram whose boxes are all '
+                         'connected to one another' + tag, r)
+                return
+        except common.Hang:
+            rep.fail('C07:terminates', 'normalisation neither finished nor raised within 30 s' + tag, r)
             return
-        if (s.dom, s.cod) != (d.dom, d.cod):
-            rep.fail('C07:step.dom_cod', 'step %d changes dom/cod' % k, r)
+        except Exception as e:
+            rep.fail('C07:only_NotImplementedError', 'normalisation raised %s: %s%s' % (type(e).__name__, e, tag), r)
             return
-        got = F(s).array
-        if got.shape != want.shape or not numpy.allclose(got, want):
-            rep.fail('C07:step.semantics', 'step %d denotes another tensor' % k, r)
+        if nf[0] == 'long' and connected(d):
+            rep.fail('C07:terminates', 'more than 80 rewrite steps on a connected diagram with <= 5 boxes' + tag, r)
             return
-    if nf[0] == 'ok':
-        left = yankable_left(nf[1])
-        if left is not None:
-            rep.fail('C07:no_yankable_left', 'the normal form still has a cap (box %d) running into a cup (box %d)' % left,
-                     r + ' -> %r' % (nf[1],))
-        rep.count('normal_forms')
+        for k, s in enumerate(steps + ([nf[1]] if nf[0] == 'ok' else [])):
+            why = common.wf_reason(s)
+            if why:
+                rep.fail('C01:snake.step.wf', 'step %d: %s%s' % (k, why, tag), r)
+                return
+            if (s.dom, s.cod) != (d.dom, d.cod):
+                rep.fail('C07:step.dom_cod', 'step %d changes dom/cod%s' % (k, tag), r)
+                return
+            got = F(s).array
+            if got.shape != want.shape or not numpy.allclose(got, want):
+                rep.fail('C07:step.semantics', 'step %d denotes another tensor%s' % (k, tag), r)
+                return
+        if nf[0] == 'ok':
+            yl = yankable_left(nf[1])
+            if yl is not None:
+                rep.fail('C07:no_yankable_left', 'the normal form still has a cap (box %d) running into a cup (box %d)%s'
+                         % (yl + (tag,)), r + ' -> %r' % (nf[1],))
+            rep.count('normal_forms')
 
 
 def gen(doms, boxes, max_boxes, max_width=4):
@@ -108,7 +122,8 @@ def run(tier, seed=0, shard=(0, 1)):
     doms = [Ty(), x, x.r, x @ x.r, x.l]
     rep = Report({'max_boxes': max_boxes, 'max_width': 4, 'boxes': [repr(b) for b in boxes], 'doms': [repr(t) for t in doms],
                   'semantics': 'rigid functor into tensors, dimension 2, random integer arrays (seeded)',
-                  'steps': '<= 80 per diagram'})
+                  'steps': '<= 80 per diagram, both left and right normalisation, 30 s budget',
+                  'self_adjoint': '7 diagrams over rigid.PRO(1) (dimension 3) with closed loops, alone / nested / beside snakes'})
     F = make_functor(gens, seed)
     for idx, d in enumerate(gen(doms, boxes, max_boxes)):
         if idx % shard[1] != shard[0] or not len(d):
@@ -123,4 +138,21 @@ def run(tier, seed=0, shard=(0, 1)):
                  s @ Cap(x, x.l) @ f @ s >> f @ Id(x.l) @ f >> Id(x) @ Cup(x.l, x) @ s]
         for d in extra:
             check(rep, d, F)
+        # a cup directly above a cap at the same offset, inside a connected diagram (both flags must terminate)
+        tie = f >> Cup(x, x.r) @ Id(x) if False else None
+        ff, gg = Box('ff', x, x @ x.r @ x), Box('gg', x.r @ x @ x, x)
+        for d in (ff >> Cup(x, x.r) @ Id(x) >> Cap(x.r, x) @ Id(x) >> gg,
+                  Cap(x, x.l) @ Id(x) >> Id(x) @ Cup(x.l, x) >> ff >> Cup(x, x.r) @ Id(x) >> Cap(x.r, x) @ Id(x) >> gg):
+            Fx = make_functor([ff, gg], seed)
+            check(rep, d, Fx)
+        # self-adjoint wires (rigid.PRO): a closed loop Cap >> Cup is a scalar (the dimension), not a snake
+        p = rigid.PRO(1)
+        u = Box('u', p, p)
+        Fp = tensor.Functor({p: 3}, {u: numpy.arange(9).reshape(3, 3).astype(float)})
+        loops = [Cap(p, p) >> Cup(p, p), Cap(p, p) @ Cap(p, p) >> Id(p) @ Cup(p, p) @ Id(p) >> Cup(p, p),
+                 Cap(p, p) >> u @ Id(p) >> Cup(p, p), Id(p) @ Cap(p, p) >> Cup(p, p) @ Id(p),
+                 Id(p) @ Cap(p, p) @ Cap(p, p) >> Cup(p, p) @ Id(p) @ Cup(p, p) >> u,
+                 u @ (Cap(p, p) >> Cup(p, p)), Cap(p, p) @ Id(p) >> Id(p) @ Cup(p, p) >> u]
+        for d in loops:
+            check(rep, d, Fp)
     return rep.result()
